@@ -8,7 +8,8 @@ malformed rows included), proved about the mirror of the code's own arithmetic (
 
 * `C12_copelandNet_antisymm` — the pairwise net of `(j, i)` is the negation of that of `(i, j)`;
 * `C12_copelandNet_self` — the diagonal is zero (the code does not skip `i = j`; it contributes 0);
-* `C12_copeland_zero_sum` — the Copeland scores of any profile sum to zero.
+* `C12_copeland_zero_sum` — the Copeland scores of any profile sum to zero;
+* `C12_copeland_score_bounds` — every score lies between -(m-1) and m-1 (the diagonal contributes nothing).
 
 The harness evaluates the last law on the implementation's score vector of every explored case
 (`harness/c12.py`, stage `zero-sum`): a change that counts a pair on one side only (a one-sided
@@ -87,5 +88,40 @@ example : copeland [[1,2,3],[2,1,3],[3,1,2],[3,2,1]] 3 = [-1, 2, -1] ∧
 #print axioms C12_copelandNet_antisymm
 #print axioms C12_copelandNet_self
 #print axioms C12_copeland_zero_sum
+
+theorem sgn_bounds (x : Int) : -1 ≤ sgn x ∧ sgn x ≤ 1 := by
+  unfold sgn; split <;> (try split) <;> omega
+
+theorem sumI_bound_nonzero {α : Type} (l : List α) (f : α → Int) (h : ∀ x ∈ l, -1 ≤ f x ∧ f x ≤ 1) :
+    -((l.filter (fun x => f x != 0)).length : Int) ≤ sumI (l.map f) ∧
+    sumI (l.map f) ≤ ((l.filter (fun x => f x != 0)).length : Int) := by
+  induction l with
+  | nil => simp [sumI_nil]
+  | cons a l ih =>
+    have ha := h a (List.mem_cons_self ..)
+    have ih' := ih (fun x hx => h x (List.mem_cons_of_mem _ hx))
+    rw [List.map_cons, sumI_cons, List.filter_cons]
+    by_cases h0 : f a = 0
+    · simp [h0]; omega
+    · simp [h0]; omega
+
+/-- every Copeland score lies between -(m-1) and m-1 -/
+theorem C12_copeland_score_bounds (P : Profile) (m a : Nat) (ha : a < m) :
+    -((m : Int) - 1) ≤ (copeland P m).getD a 0 ∧ (copeland P m).getD a 0 ≤ (m : Int) - 1 := by
+  unfold copeland
+  have hlen : a < ((List.range m).map (fun i => sumI ((List.range m).map (fun j => sgn (copelandNet P i j))))).length := by simpa using ha
+  simp only [List.getD_eq_getElem?_getD, List.getElem?_eq_getElem hlen, Option.getD_some, List.getElem_map, List.getElem_range]
+  have hb := sumI_bound_nonzero (List.range m) (fun j => sgn (copelandNet P a j)) (fun x _ => sgn_bounds _)
+  have hlt : ((List.range m).filter (fun j => sgn (copelandNet P a j) != 0)).length < (List.range m).length := by
+    rw [List.length_filter_lt_length_iff_exists]
+    refine ⟨a, List.mem_range.mpr ha, ?_⟩
+    simp [C12_copelandNet_self, sgn]
+  rw [List.length_range] at hlt
+  omega
+
+/-- tightness: a Condorcet winner reaches m-1 and a Condorcet loser -(m-1) -/
+example : copeland [[1,2,3],[1,3,2],[2,1,3]] 3 = [2, 0, -2] := by decide
+
+#print axioms C12_copeland_score_bounds
 
 end C12
